@@ -111,10 +111,10 @@ def make_scripts(doctable, rng, quick):
         (D("loads", 4, True), D("dumps", 4), b, 3, "same"),
         (D("loads", 5, True), D("validate", 5, ver=76), b, b, "same"),
         (D("dumps", 1), D("dumps", 1), 3, 3, "same"),
-        (D("dumps", 5), D("validate", 5, ver=80), 3, b + 1, "same"),
-        (D("validate", 4, ver=76), D("validate", 4, ver=80), b, b + 1, "same"),
+        (D("dumps", 5), D("validate", 5, ver=80), 3, b if quick else b + 1, "same"),
+        (D("validate", 4, ver=76), D("validate", 4, ver=80), b, b if quick else b + 1, "same"),
         (D("validate", 5, ver=80), D("validate", 5, ver=80), b, b, "same"),
-        (D("validate", 4, ver=0), D("validate", 4, ver=76), b, b, "same"),
+        (D("validate", 4, ver=0), D("validate", 4, ver=76), c, b, "same"),
         (D("findall", 1), D("dumps", 1), 1, 3, "same"),
         (D("findall", 4), D("validate", 4, ver=80), 1, b + 1, "same"),
         (D("findall", 1), D("findall", 1), 1, 1, "same"),
@@ -218,7 +218,7 @@ def _run(ck, seed, quick, pool, nproc, t0):
         pur_jobs.append(pool.apply_async(L.task_purity, ({"base": (i + 1) * 100000, "seed": seed * 100 + i, "files": ch,
                                                           "light": quick},)))
     slots_f = ex.submit(docsmod.slots, "c12_slots", ck)
-    walks_f = ex.submit(purity_texts, ck, 120 if quick else 800, seed)
+    walks_f = ex.submit(purity_texts, ck, 90 if quick else 800, seed)
 
     # ---- (M) a first tiny run (one of the negative configurations) also delivers the document table
     name0, kw0, want0 = NEGATIVES[-1]
@@ -322,7 +322,7 @@ def _run(ck, seed, quick, pool, nproc, t0):
     #      worker processes become free (schedule waits have 180 s deadlines)
     secs = 4 if quick else 40
     stress_async = [pool.apply_async(L.task_stress, (dict(env_job, seconds=secs, proc=i, same_input=i % 2 == 0),))
-                    for i in range(8 if quick else nproc)]
+                    for i in range(6 if quick else nproc)]
 
     # ---- collect (M)
     for name, f in model_jobs.items():
